@@ -108,6 +108,28 @@ fn main() {
         }
         exec_dispatch(ctx, &Ev::new("symmetric", ty, n).int64(0));
         exec_dispatch(ctx, &Ev::new("symmetric", ty, n).int64(!0));
+        // masks with exactly k set bits for every k in 0..=64, spread over all 64 positions / kept above bit n /
+        // with a random low part: count-dependent shortcuts must look at the relevant bits only
+        for k in 0..=64usize {
+            for variant in 0..if thorough { 24 } else { 6 } {
+                let mut positions: Vec<usize> = match variant % 3 {
+                    0 => (0..64).collect(),
+                    1 => (std::cmp::min(n + 1, 63)..64).collect(),
+                    _ => (0..64).collect(),
+                };
+                rng.shuffle(&mut positions);
+                let mut m = 0u64;
+                for p in positions.iter().take(k) {
+                    m |= 1u64 << p;
+                }
+                if variant % 3 == 2 {
+                    // force some relevant bits to both values
+                    m &= !(1u64 << rng.below(n + 1));
+                    m |= 1u64 << (63 - rng.below(8));
+                }
+                exec_dispatch(ctx, &Ev::new("symmetric", ty, n).int64(m));
+            }
+        }
         let reps = if thorough { 60000 } else { 300 };
         for _ in 0..reps {
             exec_dispatch(ctx, &Ev::new("symmetric", ty, n).int64(rng.next_u64()));
